@@ -382,6 +382,12 @@ def count_definition(ct, rep, rule="count-definition"):
 
 def first_of_type(ct, e, key_text):
     """(has default) when e is next(<entry for entry in entries if entry.type == key>[, None]); None otherwise"""
+    # entries[[v.type for v in entries].index(key)]: list.index gives the position of the FIRST equal element and raises when there is none
+    if isinstance(e, ast.Subscript) and ct.is_entries(e.value) and isinstance(e.slice, ast.Call) and isinstance(e.slice.func, ast.Attribute) and e.slice.func.attr == "index" \
+            and len(e.slice.args) == 1 and not e.slice.keywords and norm(e.slice.args[0]) == key_text and isinstance(e.slice.func.value, ast.ListComp) \
+            and len(e.slice.func.value.generators) == 1 and not e.slice.func.value.generators[0].ifs and ct.is_entries(e.slice.func.value.generators[0].iter) \
+            and norm(e.slice.func.value.elt) == f"{norm(e.slice.func.value.generators[0].target)}.type":
+        return False
     if not (isinstance(e, ast.Call) and norm(e.func) == "next" and e.args and isinstance(e.args[0], (ast.GeneratorExp, ast.ListComp)) and len(e.args[0].generators) == 1):
         return None
     g = e.args[0].generators[0]
